@@ -401,6 +401,21 @@ def rule_extent_pairing(ctx: Ctx):
            f"every path that stores a party name also stores the full-span start computed by the same backward scan ({n} paths)", node=fn, mod=hm)
 
 
+def rule_extent_writers(ctx: Ctx):
+    """the full span is the extent the metadata was read from: it may be set only where metadata is read (the add_* helpers) or at construction"""
+    repo = ctx.repo
+    allowed = {"helpers.add_post_citation", "helpers.add_defendant", "helpers.add_pre_citation", "helpers.add_law_metadata", "helpers.add_journal_metadata"}
+    n = 0
+    for qual, mod, fn in repo.all_funcs():
+        for x in walk_local(fn):
+            if isinstance(x, ast.Attribute) and isinstance(x.ctx, ast.Store) and x.attr in ("full_span_start", "full_span_end"):
+                n += 1
+                ctx.ob("R-C17-2", f"{qual}/writes:{x.attr}", qual in allowed,
+                       "the full span is moved after the metadata was read: values already stored (year, extra, parenthetical, parties) may then lie outside it",
+                       node=x, mod=mod, nontrivial=qual not in allowed)
+    ctx.extra["extent_field_stores"] = n
+
+
 def rule_parallel_copy(ctx: Ctx, typed: Typed):
     repo = ctx.repo
     mm, fm = repo.mod("models"), repo.mod("find")
@@ -478,6 +493,7 @@ def run(ctx: Ctx):
     typed = Typed.get(ctx.repo.root)
     ctx.guard(rule_provenance, ctx, typed)
     ctx.guard(rule_extent_pairing, ctx)
+    ctx.guard(rule_extent_writers, ctx)
     ctx.guard(rule_parallel_copy, ctx, typed)
     from .c19 import rule_append_order
 
